@@ -96,6 +96,8 @@ def main(argv=None):
         print("INCONCLUSIVE property=%s reason=pyformlang imported from %s not %s" % (a.prop, here, want))
         sys.exit(2)
 
+    if os.environ.get("VF_LINECOV"):
+        core.start_line_coverage(os.path.join(a.repo, "pyformlang"))
     mod = load(a.prop)
     core.ACTIVE.add(a.prop)
     mod.install()
@@ -143,6 +145,8 @@ def main(argv=None):
         "anchors": core.anchor_hits(),
         "wall_s": time.time() - t0,
     }
+    if os.environ.get("VF_LINECOV"):
+        out["lines_hit"] = core.line_coverage()
     with open(a.out, "w") as f:
         json.dump(out, f)
 
